@@ -114,3 +114,111 @@ theorem task_correct_solution_eq (vars : List VarDecl) (raws : List Raw) :
   exact correct_zip raws (TaskDecl.getVariables ⟨vars⟩)
 
 end R14
+
+/-!
+## bounds: refinement of `get_bounds` of every declared variable class and `Task.get_bounds` *as the source reads now* are the model's
+`lowerEntries / upperEntries / getBounds` (C14: one lower / upper pair per coordinate, equal to that coordinate's own variable bounds).
+The only floating-point expressions in these functions are named: `n_items - 1e-4` is the parameter `permUb` (what doubles give for it is
+observed, `VarDecl.permUbOk`), `2 - np.finfo(float).eps` is the exact constant `binaryUb`; any other float expression is untranslatable.
+-/
+
+namespace R14
+open Py
+
+theorem discmulti_get_bounds_eq (ns : List Nat) :
+    Src.discmulti_get_bounds (ns.map List.range) = .ok (ns.map (fun _ => Num.fin 0), ns.map discUb) := by
+  unfold Src.discmulti_get_bounds
+  rw [discmulti_children_eq]
+  simp only [except_ok_bind, VarDecl.children, List.mapM_map]
+  have : (ns.mapM (fun n => (do return (← Src.var_get_bounds_scalar (Var.disc n)) : Except Err (Num × Num))))
+      = .ok (ns.map (fun n => ((Num.fin 0 : Num), discUb n))) := by
+    apply R20.mapM_congr_ok
+    intro n _
+    simp [Src.var_get_bounds_scalar, Src.disc_get_bounds, Id.run, intNum, discUb]
+  simp only [Function.comp_def] at this ⊢
+  rw [this]
+  show Except.ok _ = _
+  simp [List.map_map, Function.comp_def]
+
+/-- what one declared variable contributes to `lb` / `ub` in `Task.get_bounds` -/
+theorem vd_bounds_entries (permUb : Nat → Num) (v : VarDecl) :
+    (do let b ← Src.vd_get_bounds permUb v
+        let l ← (if Src.vd_has_children v then (do return (← Py.bentryAsList b.1)) else (do return [b.1]) : Except Err (List BEntry))
+        let u ← (if Src.vd_has_children v then (do return (← Py.bentryAsList b.2)) else (do return [b.2]) : Except Err (List BEntry))
+        return (l, u) : Except Err (List BEntry × List BEntry))
+      = .ok (v.lowerEntries, v.upperEntries permUb) := by
+  cases v with
+  | cont lb ub => rfl
+  | disc n =>
+    simp [Src.vd_get_bounds, Src.disc_get_bounds, Src.vd_has_children, Src.disc_has_children, Id.run, VarDecl.lowerEntries,
+      VarDecl.upperEntries, intNum, discUb]
+    rfl
+  | perm n =>
+    simp [Src.vd_get_bounds, Src.perm_get_bounds, Src.vd_has_children, Src.perm_has_children, Id.run, VarDecl.lowerEntries,
+      VarDecl.upperEntries]
+    rfl
+  | contMulti lbs ubs =>
+    simp [Src.vd_get_bounds, Src.contmulti_get_bounds, Src.vd_has_children, Src.contmulti_has_children, Id.run,
+      VarDecl.lowerEntries, VarDecl.upperEntries, Py.bentryAsList]
+    rfl
+  | multiObj lbs ubs =>
+    simp [Src.vd_get_bounds, Src.multiobj_get_bounds, Src.vd_has_children, Src.multiobj_has_children, Id.run,
+      VarDecl.lowerEntries, VarDecl.upperEntries, Py.bentryAsList]
+    rfl
+  | binary n =>
+    simp [Src.vd_get_bounds, Src.binary_get_bounds, Src.vd_has_children, Src.binary_has_children, Id.run,
+      VarDecl.lowerEntries, VarDecl.upperEntries, Py.bentryAsList]
+    rfl
+  | discMulti ns =>
+    simp [Src.vd_get_bounds, discmulti_get_bounds_eq, Src.vd_has_children, Src.discmulti_has_children, Id.run,
+      VarDecl.lowerEntries, VarDecl.upperEntries, Py.bentryAsList, List.map_map, Function.comp_def]
+    show Except.ok _ = _
+    simp [List.map_map, Function.comp_def]
+
+
+/-- the loop of `Task.get_bounds`: both accumulators grow by each variable's entries -/
+theorem bounds_loop (permUb : Nat → Num) (vars : List VarDecl) (l0 u0 : List BEntry) :
+    (forIn vars (l0, u0) (fun v (s : List BEntry × List BEntry) => (do
+        let b ← Src.vd_get_bounds permUb v
+        let l ← (if Src.vd_has_children v = true then Py.bentryAsList b.1 else pure [b.1])
+        let u ← (if Src.vd_has_children v = true then Py.bentryAsList b.2 else pure [b.2])
+        pure (ForInStep.yield (s.1 ++ l, s.2 ++ u)) : Except Err (ForInStep (List BEntry × List BEntry)))))
+      = .ok (l0 ++ vars.flatMap VarDecl.lowerEntries, u0 ++ vars.flatMap (VarDecl.upperEntries permUb)) := by
+  induction vars generalizing l0 u0 with
+  | nil => simp; rfl
+  | cons v vs ih =>
+    have hv := vd_bounds_entries permUb v
+    simp only [bind_pure_comp, map_pure] at hv
+    rw [List.forIn_cons]
+    cases hb : Src.vd_get_bounds permUb v with
+    | error e => simp [hb] at hv; cases hv
+    | ok b =>
+      simp only [hb, except_ok_bind] at hv ⊢
+      cases hl : (if Src.vd_has_children v = true then Py.bentryAsList b.1 else pure [b.1] : Except Err (List BEntry)) with
+      | error e => simp [hl] at hv; cases hv
+      | ok l =>
+        simp only [hl, except_ok_bind] at hv ⊢
+        cases hu : (if Src.vd_has_children v = true then Py.bentryAsList b.2 else pure [b.2] : Except Err (List BEntry)) with
+        | error e => simp [hu] at hv; cases hv
+        | ok u =>
+          simp only [hu, except_ok_bind] at hv ⊢
+          have hlu : l = v.lowerEntries ∧ u = v.upperEntries permUb := by
+            have : (Except.ok (l, u) : Except Err _) = .ok (v.lowerEntries, v.upperEntries permUb) := hv
+            cases this; exact ⟨rfl, rfl⟩
+          obtain ⟨rfl, rfl⟩ := hlu
+          have := ih (l0 ++ v.lowerEntries) (u0 ++ v.upperEntries permUb)
+          simp only [List.flatMap_cons, List.append_assoc] at this ⊢
+          exact this
+
+theorem task_get_bounds_eq (permUb : Nat → Num) (vars : List VarDecl) :
+    Src.task_get_bounds permUb vars = TaskDecl.getBounds permUb ⟨vars⟩ := by
+  unfold Src.task_get_bounds TaskDecl.getBounds
+  simp only []
+  have := bounds_loop permUb vars [] []
+  simp only [List.nil_append] at this
+  rw [this]
+  simp only [except_ok_bind, Py.npArray]
+  cases h1 : TaskDecl.homogeneous (List.flatMap VarDecl.lowerEntries vars) <;>
+    cases h2 : TaskDecl.homogeneous (List.flatMap (VarDecl.upperEntries permUb) vars) <;> simp <;> rfl
+
+end R14
